@@ -137,6 +137,10 @@ structure Eng (M : Type) where
   evals : Nat := 0
   sorts : Nat := 0
   rnds : Nat := 0
+  /-- ghost (nothing reads it): the table writes `(index, entry)` of the current `Analyze`/`GetMove` call, newest
+  first.  Written by `Eng.evict` and `Eng.setEntry`, the only two places that assign into `table`; cleared
+  where the per-call counters are.  C16 states its table clause on it. -/
+  wlog : List (Nat × TEntry M) := []
 deriving Repr, Inhabited
 
 def getA {α : Type} (a : Array α) (i : Nat) (site : String) : Except Err α :=
